@@ -20,6 +20,11 @@ func srvGenCfg(r *rand.Rand, tier, flavour string) *SrvGenCfg {
 	if tier == "thorough" {
 		cfg.Steps = 70
 	}
+	if (flavour == "election" || flavour == "flushget") && r.IntN(8) == 0 {
+		// a server seeded with an election id before any session exists (server.NewFake,
+		// InjectElectionID): the id is a floor for every later announcement, and nobody is primary
+		cfg.Srv.InjectElec = &spb.Uint128{High: uint64(1 + r.IntN(2)), Low: uint64(r.IntN(3))}
+	}
 	switch flavour {
 	case "election":
 		cfg.MaxSess, cfg.WElec, cfg.WStamp, cfg.WClose = 4, 250, 250, 40
